@@ -1492,6 +1492,9 @@ class Pregex():
             lookaround = _re.match(r"\(\?<?([=!])", pattern)
             if lookaround is not None:
                 return _Type.Assertion, lookaround.group(1) == '!'
+            if pattern.startswith('(?#'):
+                # a comment is not a group that a quantifier could be applied to.
+                return _Type.Other, True
             return _Type.Group, True
 
         # Replace every group with a simple character.
